@@ -355,8 +355,10 @@ CHECKS = {
              "setters' bracket condition, a limit >= 19 that admits the result), canonicalize_protocol_is_standard_partial "
              "with protocolUrl_scheme (for every value shaped like a scheme, parse(value + '://dummy.test') has that scheme in lower case, "
              "whatever IDNA answers) and protocol_slow_route (C01's aggregator parser theorem); pattern_helpers_are_standard "
-             "(escape_pattern_string, escape_regexp_string, process_base_url_string, is_ipv6_address, is_absolute_pathname). L1: harness "
-             "`patcanon` calls the eleven real callbacks and the five helpers directly, also under small configured maximum lengths, and compares with driver `pat.canon` "
+             "(escape_pattern_string, escape_regexp_string, process_base_url_string, is_ipv6_address, is_absolute_pathname); "
+             "process_for_init_is_standard / process_for_init_via_callbacks (the eight url_pattern_init::process_* steps = 'process "
+             "... for init'). L1: harness "
+             "`patcanon` calls the eleven real callbacks, the five helpers and the eight process_* functions directly, also under small configured maximum lengths, and compares with driver `pat.canon` "
              "(real IDNA answers as hints). On the "
              "implementation: for literal values of every component (alone, combined, with baseURL, and as constructor strings "
              "assembled from literal parts) construction fails iff "
